@@ -570,7 +570,7 @@ func c11Negative(t *rapid.T, r *rep.R) {
 	case "unknown-char":
 		bad = rapid.SampledFrom([]string{"#", "$", "?", "\\", "~", "^", "'", "& "}).Draw(t, "ch") + rapid.SampledFrom([]string{"", " x", "\n"}).Draw(t, "tail")
 	case "bad-escape":
-		bad = `"` + rapid.SampledFrom([]string{`\q`, `\x4`, `\'`, `\400`, `\u12`, `\U0011ffff`, `\xZZ`, `\8`}).Draw(t, "esc") + `"`
+		bad = `"` + rapid.SampledFrom([]string{`\q`, `\x4`, `\'`, `\400`, `\u12`, `\U0011ffff`, `\xZZ`, `\8`, "\\\n", "a\\\nb", "\\\r\n", "\\\t", "\\ ", "\\é"}).Draw(t, "esc") + `"`
 	case "lone-cr":
 		bad = "\rx"
 	case "high-byte":
